@@ -55,6 +55,11 @@ CHECKS = {
                 text='Weak fit, stated: the cubature code has no input besides the rule name, so it is executed completely for every advertised name (incl. refine/auto-degree prefixes, aliases); the symbolic part is the integrand: z3 decides in exact rational arithmetic that no polynomial of total degree <= nominal degree (coefficients in [-1,1]) has an integration error above 1e-11*sum|w|; unknown/out-of-range names must be refused.',
                 note='Trusted: g++ build of the real headers, exact monomial moments, nominal degree table (from driver docs / property text), z3 5.1.0. Rules whose (points x monomials) cost exceeds the tier bound are not decided (count reported). Four table defects were found and repaired by fix: commits.',
                 ref='3/C14'),
+    'C15': dict(cat='other', engine='E2',
+                technique='bounded symbolic execution of the real element / trafo evaluators on one cell with symbolic vertices and evaluation point; identities incl. symbolic differentiation of the returned value terms decided by z3',
+                text='Partial (stated): one cell per shape (tria, quad, tetra, hexa; general and affine geometry), elements Lagrange1/2, Discontinuous P1, CroRav/RanTur, Bernstein2: partition of unity, J = dx/dxi, hess_ten = dJ/dxi, J*Jinv = I, J^T grad = d value/d xi, second-order chain rule for Hessians, simplex jac_det, and reproduction of symbolic local polynomials by the real interpolator (node functionals + dof mapping).',
+                note='Trusted: SymReal, DAG differentiation in the driver, z3 5.1.0. Claims hold under recorded path conditions (pivoting) and positive orientation. Some second-order obligations on non-affine cells are inconclusive in the quick tier (listed). Outside: Lagrange3 (constexpr DataType), Hermite3/Argyris/BFS/..., orientation of shared multi-DOF faces across cells, DOF numbering, inverse mapping, continuity on meshes.',
+                ref='3/C15'),
     'C19': dict(cat='model_checking', engine='E3',
                 technique='own symbolic executor over the clang-14 LLVM IR of the real adjacency sources (z3 bit-vectors, region memory, path forking); set/multiset oracles decided by z3 per path; memory safety and leak checks by the executor',
                 text='For every shape profile in the bound (domain/image sizes, degree sequence) all index values, permutation entries and orders are symbolic 64-bit values; the real Graph render (all 8 types, single and composite), sort, degree, permuted copy, Permutation (all representations, apply, inverse, concat), Coloring (+partition graph) and CuthillMcKee (all root/sort/reverse options) code is executed symbolically on every feasible path; each access is bounds/liveness checked, heap must be freed, and z3 decides the definition of the operation.',
